@@ -21,6 +21,7 @@ package main
 
 import (
 	"bufio"
+	"bytes"
 	"crypto/md5"
 	"encoding/base64"
 	"encoding/hex"
@@ -418,12 +419,13 @@ type recConsumer struct {
 func (r *recConsumer) Consume(p media.Pack) { atomic.AddInt32(&consumerGot, 1) }
 func (r *recConsumer) Close() error         { atomic.StoreInt32(&r.closed, 1); return nil }
 
+var stackBuf = make([]byte, 1<<20)
+
 func pullGoroutines() int64 {
-	buf := make([]byte, 1<<20)
-	n := runtime.Stack(buf, true)
+	n := runtime.Stack(stackBuf, true)
 	cnt := int64(0)
-	for _, g := range strings.Split(string(buf[:n]), "\n\n") {
-		if strings.Contains(g, "rtsp.(*PullClient)") || strings.Contains(g, "pull_client.go") {
+	for _, g := range bytes.Split(stackBuf[:n], []byte("\n\n")) {
+		if bytes.Contains(g, []byte("rtsp.(*PullClient)")) || bytes.Contains(g, []byte("pull_client.go")) {
 			cnt++
 		}
 	}
